@@ -76,6 +76,8 @@ def run(ck):
     # ---------------- R3 ----------------
     for f in prog.find("Pistache::ArrayStreamBuf::feed", 1):
         grow = [e for e in f.events("call") if (e.get("callee") or "") in ("std::back_inserter", "std::inserter") and strip_tmpl((e["args"][0].get("f") or "")).endswith("ArrayStreamBuf::bytes")]
+        # (or a growing member call on the vector itself: insert / push_back / resize / append ...)
+        grow += [e for e in f.calls(lambda e: lib.is_stl_mutation(e) and strip_tmpl((e.get("recv") or {}).get("f") or "").endswith("ArrayStreamBuf::bytes"))]
         tests = [b for b in f.blocks.values() if b.term and b.term.get("k") == "if" and any(strip_tmpl(r).endswith("ArrayStreamBuf::maxSize") for r in lib.term_refs(f, b.term))]
         # growth lies on one side of the limit test only (which side is the fitting one is decided by C14-R1)
         ok = bool(grow) and bool(tests) and all(any(cfg.edge_dominates(f, b.id, k_, g) for b in tests for k_ in (0, 1) if b.succs[k_] is not None) for g in grow)
